@@ -119,6 +119,9 @@ Definition prop_case (c : case) : bool :=
   | CPrint tb ms _ _ =>
       let sp := sp_of tb in let pr := pr_of tb in let cp := cp_of tb in
       let bms := map bm_of ms in
+      (* the contracts the round-trip theorems assume of the library tables hold for the real ones *)
+      negb (pr 10) && negb (sp 34) && forallb (fun r => negb (name_char r)) (t_spaces tb) &&
+      forallb sp [9; 10; 12; 13; 32] &&
       forallb (fun m =>
         negb (in_domain tb m) ||
         (let s := print_b sp pr m in
